@@ -134,6 +134,36 @@ pub fn run(o: &Opts) -> Report {
         impl_out.push(we);
         checks.push((lines.len() - 1, "walk".into(), p.clone()));
     }
+    // the FileSystem trait called directly (both types are public) with the raw strings a caller
+    // may pass, including a trailing separator, which VfsPath::join never produces: the four
+    // observers must tell the same story as the physical folder, and one story among themselves
+    {
+        use vfs::FileSystem;
+        let efs = EmbeddedFS::<Fixture>::new();
+        let pfs = PhysicalFS::new(fixture_dir);
+        let story = |fs: &dyn FileSystem, p: &str| -> String {
+            let ex = match guarded(|| fs.exists(p)) { Ok(Ok(b)) => if b { "E" } else { "A" }, Ok(Err(_)) => "X", Err(_) => "P" };
+            let md = match guarded(|| fs.metadata(p)) { Ok(Ok(m)) => if m.file_type == vfs::VfsFileType::File { "F" } else { "D" }, Ok(Err(_)) => "-", Err(_) => "P" };
+            let ls = match guarded(|| fs.read_dir(p).map(|i| i.count())) { Ok(Ok(_)) => "L", Ok(Err(_)) => "-", Err(_) => "P" };
+            let rd = match guarded(|| fs.open_file(p).and_then(|mut h| { let mut v = vec![]; h.read_to_end(&mut v)?; Ok(v.len()) })) { Ok(Ok(_)) => "R", Ok(Err(_)) => "-", Err(_) => "P" };
+            format!("{}{}{}{}", ex, md, ls, rd)
+        };
+        // only FILE paths: for a directory a trailing separator is a different spelling of the
+        // same directory on the host and simply not a path of the embedded filesystem — outside
+        // what the property says; for a file both must say "nothing there"
+        let file_paths: Vec<String> = files.iter().map(|(f, _)| format!("/{}", f)).collect();
+        for b in file_paths.iter() {
+            for raw in [format!("{}/", b), format!("{}//", b), format!("{}/.", b)] {
+                let (se, sp) = (story(&efs, &raw), story(&pfs, &raw));
+                rep.evaluations += 1;
+                if se.contains('P') {
+                    rep.fail(Fail { oracle: "prop".into(), signature: "embedded:raw-trait-call:panic".into(), what: format!("EmbeddedFS trait call on {:?} panicked ({})", raw, se), script: vec![], impl_out: se.clone(), model_out: sp.clone() });
+                } else if se != sp {
+                    rep.fail(Fail { oracle: "prop".into(), signature: "embedded:raw-trait-call:differs-from-folder".into(), what: format!("trait calls on {:?}: EmbeddedFS answers {} (exists/metadata/read_dir/open+read) but the folder answers {}", raw, se, sp), script: vec![], impl_out: se.clone(), model_out: sp.clone() });
+                }
+            }
+        }
+    }
     // mutators: refused as not-supported, nothing changes
     let before: Vec<String> = paths.iter().map(|p| observe(&emb, p)).collect();
     let mutators: Vec<(&str, Box<dyn Fn(&VfsPath, &VfsPath) -> vfs::VfsResult<()>>)> = vec![
